@@ -710,10 +710,10 @@ func signable3(set []rec3) bool {
 }
 
 func dsVariant(r *vlib.R) string {
-	if r.Chance(3, 4) {
+	if r.Chance(3, 5) {
 		return "good"
 	}
-	return vlib.Pick(r, []string{"nosig", "badsig", "none"})
+	return vlib.Pick(r, []string{"nosig", "badsig", "none", "dsok", "dsunsupd", "dsunsupa", "dsmixed"})
 }
 
 func authVariant(r *vlib.R) string {
